@@ -45,10 +45,10 @@ def drivers(shapes):
                          "        let (k1, o1) = pa.ECDH(&pb.public_key.encode()[..]);\n"
                          "        let (k2, o2) = pb.ECDH(&pa.public_key.encode()[..]);\n"
                          "        *ka = k1; *kb = k2; st[0] = o1; st[1] = o2;", host))
-        ds.append(Driver("drv_%s_ecdh1" % curve, [("sa", "in", 1, 32), ("peer", "in", 1, 32), ("ka", "out", 1, 32), ("st", "out", 4, 1)],
+        ds.append(Driver("drv_%s_ecdh1" % curve, [("sa", "in", 1, 32), ("peer", "in", 1, 32), ("ka", "out", 1, 32), ("st", "out", 4, 1), ("pk", "out", 1, 32)],
                          "        let mut a = Scalar::decode_reduce(&sa[..]); a.set_cond(&Scalar::ONE, a.iszero());\n"
                          "        let pa = PrivateKey::from_scalar(&a);\n"
-                         "        let (k1, o1) = pa.ECDH(&peer[..]);\n        *ka = k1; st[0] = o1;", host))
+                         "        let (k1, o1) = pa.ECDH(&peer[..]);\n        *ka = k1; st[0] = o1; *pk = pa.public_key.encode();", host))
     return ds
 
 
@@ -272,6 +272,17 @@ def _confirm(ob, built, shape, problems, secs, nq):
             return ob.fail({"key": "%s.ECDH" % curve, "problems": problems, "peer": bytes(peer).hex(),
                             "found_by": "structural mismatch; natively the failure key does not depend on the local secret"},
                            "z3-bv+replay", secs, nq)
+        # the failure key must not be computable from public data: try the key-derivation hash over public material only
+        import hashlib
+        pkb, prb = bytes(n1["pk"]), bytes(peer)
+        for first, second in ((pkb, prb), (prb, pkb)):
+            for tag in (0x46, 0x53):
+                for sh in (bytes(32), prb, pkb):
+                    if hashlib.blake2s(first + second + bytes([tag]) + sh, digest_size=32).digest() == bytes(n1["ka"]):
+                        return ob.fail({"key": "%s.ECDH" % curve, "problems": problems, "peer": prb.hex(), "own_public_key": pkb.hex(),
+                                        "native_key": bytes(n1["ka"]).hex(),
+                                        "found_by": "structural mismatch; natively the failure key equals BLAKE2s over public data only "
+                                                    "(keys, tag %#x, shared = %s)" % (tag, sh.hex()[:16])}, "z3-bv+replay", secs, nq)
     return ob.unknown("structural mismatch (%s) not confirmed natively" % "; ".join(problems)[:300])
 
 
